@@ -427,16 +427,31 @@ def run(tier, seed, replay):
     else:
         # 1. the design: exhaustive model
         cfg = "MCCursor" if tier == "quick" else "MCCursorT"
-        res = vlib.tlc("MCCursor", cfg=cfg, workers=8, timeout=1500)
+        q = tier == "quick"
+        res, eres, f6, f5 = vlib.tlc_many([
+            dict(module="MCCursor", cfg=cfg, workers=4, timeout=1500),
+            # every expression tree of spec/WxmlExpr.tla, its tokens separated by seeded white space, line breaks and
+            # comments (with multi-byte characters): the layout between any two tokens must not move a recorded location
+            dict(module="MCWxmlExpr", workers=4, timeout=900, sample=(5, seed) if q else None),
+            # templates whose identifiers resolve to scopes (wx:for item / index under default and given names, slot
+            # values, script modules): families F5 and F6 of spec/MCWxmlSem.tla in several spellings
+            dict(module="MCWxmlSem", cfg="MCWxmlSem_F6", workers=4, timeout=900),
+            dict(module="MCWxmlSem", cfg="MCWxmlSem_F5", workers=4, timeout=900, sample=(6, seed) if q else None),
+        ], parallel=4)
         vlib.tlc_expect_ok(res, "MCCursor")
         ck.add_tlc(res)
         inputs = build_inputs(tier, seed)
-        # every expression tree of spec/WxmlExpr.tla, its tokens separated by seeded white space, line breaks and
-        # comments (with multi-byte characters): the layout between any two tokens must not move a recorded location
-        import c03
-        eres = vlib.tlc("MCWxmlExpr", workers=6, timeout=900, sample=(5, seed) if tier == "quick" else None)
         vlib.tlc_expect_ok(eres, "MCWxmlExpr")
         ck.add_tlc(eres)
+        import semrun
+        for fam, fres in (("F6", f6), ("F5", f5)):
+            vlib.tlc_expect_ok(fres, "MCWxmlSem " + fam)
+            ck.add_tlc(fres)
+            rnd3 = vlib.rng(seed, "c16-" + fam)
+            for c in fres.cases:
+                for v, srcs in semrun.build_sources(c, rnd3, 2):
+                    for p_, t_ in srcs:
+                        inputs.append(t_)
         rnd2 = vlib.rng(seed, "c16-expr")
         seps = [" ", "  ", "\n", "\t", " /* c */ ", "/**/", "\n/*é😀*/\n  ", " /* a */ /* b */"]
         for c in eres.cases:
